@@ -299,11 +299,6 @@ def run_case(case):
                     affected.add(a)
                     affected |= dag.descendants(a)
 
-    if site and outputs is not None and not verify_tree and not reachable and (
-            affected & set(outputs)):
-        # only the listed cells are calculated: a dependant of the site is calculated from the
-        # site's stored result and may or may not agree with its own
-        reachable = None
     site2 = cfg.get('site2') if kind in ('unknown', 'boom') else None
     affected2 = set()
     affected1 = set(affected)
@@ -314,6 +309,11 @@ def run_case(case):
                 if set(dag.decl.get(a, ())) & affected2:
                     affected2.add(a)
         affected |= affected2
+    if site and outputs is not None and not verify_tree and not reachable and (
+            affected & set(outputs)):
+        # only the listed cells are calculated: a dependant of the site (or of the second
+        # failing cell) is calculated from a stored result and may or may not agree with its own
+        reachable = None
     reach2 = site2 is not None and (outputs is None or site2 in (
         dag.closure(outputs, declared=True) if verify_tree else set(outputs)))
 
